@@ -454,7 +454,7 @@ class ValueRetireSpec(Spec):
             self.err(pt, "a path returns after removing/replacing an entry without retiring its value (leak)")
 
 
-def rule_o4(ctx, facts):
+def rule_o4(ctx, facts, rule="O4"):
     an = anchors(facts)
     from .rules_c05 import find_removal_bodies
     rbodies = [b for b, _, _ in find_removal_bodies(facts)]
@@ -497,9 +497,9 @@ def rule_o4(ctx, facts):
             continue
         if spec.errors:
             for (pt, why) in list(spec.errors)[:3]:
-                ctx.inst("O4", b, "removed value retired once", b.span_at(pt), False, why)
+                ctx.inst(rule, b, "removed value retired once", b.span_at(pt), False, why)
         else:
-            ctx.inst("O4", b, "removed value retired once", b.span, True,
+            ctx.inst(rule, b, "removed value retired once", b.span, True,
                      "%d unlink/overwrite site(s), %d remove_tree_node call(s) (drop_value=%s), %d value retire(s): exactly one retire on every path"
                      % (len(unlink), len(rtn_calls), sorted(set(rtn_calls.values())), len(vret)))
     # remove_tree_node itself: retires the value iff drop_value, only on the non-untreeify path
@@ -518,7 +518,7 @@ def rule_o4(ctx, facts):
             cd = cond_of(rt, blk)
             if cd and cd["kind"] == "bool" and fl.derives_from_arg(cd["local"], 3) and dominated_by_edge(rt, c.point, [(blk, cd["true"])]):
                 ok = True
-    ctx.inst("O4", rt, "callee retires the value iff drop_value", rt.span, ok and len(vr) == 1,
+    ctx.inst(rule, rt, "callee retires the value iff drop_value", rt.span, ok and len(vr) == 1,
              "value retire is dominated by the true edge of drop_value" if ok and len(vr) == 1 else "remove_tree_node's value retire is not controlled by drop_value")
 
 
